@@ -184,6 +184,13 @@ func (c *Ctx) applyUF(name string, in []*Term, nOut int, outMax int) []*Term {
 	if c.concrete == nil {
 		for _, ap := range apps {
 			if len(ap.args) != len(in) {
+				if c.injective[name] && len(ap.res) == len(res) {
+					eqOut := TTrue
+					for i := range res {
+						eqOut = And(eqOut, Eq(ap.res[i], res[i]))
+					}
+					c.addPC(Not(eqOut))
+				}
 				continue
 			}
 			eqIn := TTrue
@@ -208,3 +215,22 @@ func (c *Ctx) applyUF(name string, in []*Term, nOut int, outMax int) []*Term {
 }
 
 var _ = types.Typ
+
+// recordUF remembers a concrete application (real input/output) of an otherwise uninterpreted function.
+func (c *Ctx) recordUF(name string, in []*Term, res []*Term) {
+	for _, ap := range c.ufApps[name] {
+		if len(ap.args) == len(in) {
+			same := true
+			for i := range in {
+				if !(ap.args[i].Op == OpConst && in[i].Op == OpConst && ap.args[i].Val.Cmp(in[i].Val) == 0) {
+					same = false
+					break
+				}
+			}
+			if same {
+				return
+			}
+		}
+	}
+	c.ufApps[name] = append(c.ufApps[name], ufApp{args: in, res: res})
+}
